@@ -264,6 +264,10 @@ def run(ctx):
             if not diffs:
                 continue
             hard = {k: v for k, v in diffs.items() if k.startswith(rel)}
+            if prop == "C04" and any(s_["k"] in ("X", "I") for s_ in b["steps"]):
+                # C04: "the composite completes once its running children have completed - without waiting for anything
+                # else": a missing (or extra) completion in a behaviour that contains a stop request is a C04 violation too
+                hard.update({k: v for k, v in diffs.items() if k.startswith("C01.")})
             if any(k.startswith("drift.") for k in diffs) or not hard:
                 rep.drift += 1
                 if rep.drift <= 3:
